@@ -347,6 +347,20 @@ func (c04) Run(c Case, env *Env) Result {
 			env.J(c.Idx, j)
 			res.NTCount++
 			graphCheck(env, &res, c, j*4+2, val, feats, n)
+			// a cyclic graph over a node type that has a typed (named) map in front of two lists of one list type
+			gms := make([]*zoo.GM, 4)
+			for i := range gms {
+				gms[i] = &zoo.GM{Id: int32(i), M: zoo.NamedMap{"k": int32(i + j)}}
+			}
+			for i, g := range gms {
+				g.A = []*zoo.GM{gms[(i+1)%4], gms[(i+2)%4]}
+				g.B = []*zoo.GM{gms[(i+3)%4], g}
+				g.N = gms[(i+1)%4]
+			}
+			if j%2 == 1 {
+				gms[2].M = nil // one node without the map
+			}
+			graphCheck(env, &res, c, j*4+3, gms[0], []string{"typed-map-before-lists", "nodes=4"}, 4)
 		}
 	case "lit":
 		if f, ok := literals[c.S]; ok {
